@@ -537,3 +537,291 @@ func TestC31_Directed(t *testing.T) {
 		Exec: c31DirectedExec,
 	})
 }
+
+// ---------------------------------------------------------------------------
+// Second directed template ("relock without the proposal"): X and Y lock block
+// B in round 0 without anybody committing; in round 1 B is re-proposed, X
+// times out of propose before the proposal arrives and prevotes B from its
+// lock, sees the polka and precommits B through the relock path; Y collects
+// +2/3 precommits (with the byzantine W) and commits B while X and the
+// never-locked Z move to round 2, where a different block D is offered and W
+// supports it. Safe iff X is still locked on B.
+
+type c31Relock struct {
+	WChoice int         `json:"w_choice"` // which admissible validator is byzantine
+	Txs     int         `json:"txs"`
+	Noise   []c31Action `json:"noise"`
+	Where   []int       `json:"where"`
+	Tail    []c31Action `json:"tail"`
+}
+
+func c31RelockExec(ctx *vk.Ctx, c c31Relock) error {
+	powers := []int64{1, 1, 1, 1}
+	probe, err := ec.NewNet(powers, []bool{false, false, false, false})
+	if err != nil {
+		return fmt.Errorf("harness: %v", err)
+	}
+	p0, p1, p2 := probe.ProposerAt(0, 0), probe.ProposerAt(0, 1), probe.ProposerAt(0, 2)
+	for _, i := range probe.Honest() {
+		probe.Nodes[i].CS.VerifStop()
+	}
+	// roles: Y proposes round 1 (or W does), Z proposes round 2 (or W does), X is the rest
+	var cands []int // admissible byzantine validators
+	for w := 0; w < 4; w++ {
+		// need p1 in {Y,W} and p2 in {Z,W} with X,Y,Z distinct honest
+		var honest []int
+		for i := 0; i < 4; i++ {
+			if i != w {
+				honest = append(honest, i)
+			}
+		}
+		_ = honest
+		if p1 != p2 || p1 == w {
+			cands = append(cands, w)
+		}
+	}
+	if len(cands) == 0 {
+		ctx.Class("no-admissible-role-assignment")
+		return nil
+	}
+	W := cands[c.WChoice%len(cands)]
+	byz := make([]bool, 4)
+	byz[W] = true
+	net, err := ec.NewNet(powers, byz)
+	if err != nil {
+		return fmt.Errorf("harness: %v", err)
+	}
+	net.Start()
+	var X, Y, Z = -1, -1, -1
+	used := map[int]bool{W: true}
+	if p1 != W {
+		Y = p1
+		used[Y] = true
+	}
+	if p2 != W && !used[p2] {
+		Z = p2
+		used[Z] = true
+	}
+	for i := 0; i < 4; i++ {
+		if used[i] {
+			continue
+		}
+		switch {
+		case Y < 0:
+			Y = i
+		case Z < 0:
+			Z = i
+		default:
+			X = i
+		}
+		used[i] = true
+	}
+	if X < 0 || Y < 0 || Z < 0 {
+		ctx.Class("no-admissible-role-assignment")
+		return nil
+	}
+	all := map[int]bool{X: true, Y: true, Z: true}
+	only := func(xs ...int) map[int]bool {
+		m := map[int]bool{}
+		for _, x := range xs {
+			m[x] = true
+		}
+		return m
+	}
+	equiv := 0
+	noiseAt := func(step int) error {
+		for k, w := range c.Where {
+			if w == step && k < len(c.Noise) {
+				if err := c31Apply(ctx, net, byz, c.Noise[k:k+1], &equiv); err != nil {
+					return err
+				}
+			}
+		}
+		return nil
+	}
+	check := func(step string) error {
+		if os.Getenv("VERIF_DEBUG") != "" {
+			fmt.Printf("-- %s  (W=%d X=%d Y=%d Z=%d p=%d,%d,%d) pool=%d\n", step, W, X, Y, Z, p0, p1, p2, len(net.Pool))
+			for _, i := range []int{X, Y, Z} {
+				rs := net.Nodes[i].CS.GetRoundState()
+				lb := "-"
+				if rs.LockedBlock != nil {
+					lb = fmt.Sprintf("%X", rs.LockedBlock.Hash()[:3])
+				}
+				pb := "-"
+				if rs.ProposalBlock != nil {
+					pb = fmt.Sprintf("%X", rs.ProposalBlock.Hash()[:3])
+				}
+				fmt.Printf("   node %d: H%d R%d %v locked=%s(r%d) prop=%s store=%d\n", i, rs.Height, rs.Round, rs.Step, lb, rs.LockedRound, pb, net.Nodes[i].BS.Height())
+			}
+		}
+		if err := net.CheckSafety(); err != nil {
+			return fmt.Errorf("relock template step %s: %v", step, err)
+		}
+		return nil
+	}
+	h := func() int64 { return net.Nodes[X].CS.GetRoundState().Height }
+	// ---- round 0
+	for _, i := range []int{X, Y, Z} {
+		net.Fire(i)
+	}
+	if p0 == W {
+		pm, parts, _, err := net.ByzProposal(W, X, 0, -1, []types.Tx{types.Tx(fmt.Sprintf("b=%d", c.Txs))})
+		if err != nil {
+			return fmt.Errorf("harness: %v", err)
+		}
+		net.SendTo(W, pm, []int{X, Y, Z})
+		for _, bp := range parts {
+			net.SendTo(W, bp, []int{X, Y, Z})
+		}
+	}
+	net.FlushKinds(1, all, all, 400)
+	rsX := net.Nodes[X].CS.GetRoundState()
+	if rsX.ProposalBlock == nil || rsX.ProposalBlockParts == nil {
+		ctx.Class("template-diverged:no-proposal")
+		return check("r0-proposal")
+	}
+	bidB := types.BlockID{Hash: rsX.ProposalBlock.Hash(), PartsHeader: rsX.ProposalBlockParts.Header()}
+	net.SendTo(W, net.ByzVote(W, h(), 0, types.PrevoteType, bidB), []int{X, Y})
+	net.SendTo(W, net.ByzVote(W, h(), 0, types.PrevoteType, types.BlockID{}), []int{Z})
+	net.FlushKinds(2, only(X), all, 400)
+	net.FlushKinds(2, only(Y), all, 400)
+	net.FlushKinds(2, only(Z), only(X), 400)
+	net.Fire(Z) // prevote-wait -> precommit nil
+	if err := check("r0-prevotes"); err != nil {
+		return err
+	}
+	if err := noiseAt(1); err != nil {
+		return err
+	}
+	net.FlushKinds(4, all, all, 400)
+	for _, i := range []int{X, Y, Z} {
+		net.Fire(i) // precommit-wait -> round 1
+	}
+	if err := check("r0-precommits"); err != nil {
+		return err
+	}
+	lockedXY := net.Nodes[X].CS.GetRoundState().LockedBlock != nil && net.Nodes[Y].CS.GetRoundState().LockedBlock != nil
+	ctx.ClassIf(lockedXY, "x-and-y-locked-after-round0")
+	if h() != 1 || !lockedXY || net.Nodes[X].CS.GetRoundState().Round != 1 {
+		ctx.Class("template-diverged:round0")
+	}
+	// ---- round 1
+	if p1 == W {
+		pm, parts, _, err := net.ByzRepropose(W, Y, 1, 0)
+		if err == nil {
+			net.SendTo(W, pm, []int{Y, Z})
+			for _, bp := range parts {
+				net.SendTo(W, bp, []int{Y, Z})
+			}
+		}
+	}
+	net.Fire(X) // propose timeout before the proposal arrives: X prevotes from its lock
+	net.FlushKinds(1, only(Y, Z), all, 400)
+	// the re-proposal carries POLRound 0, whose polka Z never saw: Z only prevotes at its propose timeout
+	if net.Nodes[Z].CS.GetRoundState().Step <= cstypes.RoundStepPropose {
+		net.Fire(Z)
+	}
+	if err := noiseAt(2); err != nil {
+		return err
+	}
+	net.SendTo(W, net.ByzVote(W, h(), 1, types.PrevoteType, bidB), []int{X, Y})
+	net.SendTo(W, net.ByzVote(W, h(), 1, types.PrevoteType, types.BlockID{}), []int{Z})
+	net.FlushKinds(2, only(X), all, 400)
+	net.FlushKinds(2, only(Y), all, 400)
+	net.FlushKinds(2, only(Z), only(X), 400)
+	if os.Getenv("VERIF_DEBUG") != "" {
+		tk, ok := net.Nodes[Z].Ticker.Pending()
+		rs := net.Nodes[Z].CS.GetRoundState()
+		fmt.Printf("   Z before fire: pending=%+v %v step=%v prevotes=%s\n", tk, ok, rs.Step, rs.Votes.Prevotes(1).BitArray())
+	}
+	net.Fire(Z)
+	net.Fire(X) // X has no complete proposal: it enters precommit through the prevote-wait timeout
+	if err := check("r1-prevotes"); err != nil {
+		return err
+	}
+	net.SendTo(W, net.ByzVote(W, h(), 1, types.PrecommitType, bidB), []int{Y})
+	net.FlushKinds(4, only(Y), all, 400) // Y commits B
+	net.FlushKinds(4, only(X), only(Y, Z), 400)
+	net.FlushKinds(4, only(Z), only(X, Y), 400)
+	if err := check("r1-precommits"); err != nil {
+		return err
+	}
+	ycommitted := net.Nodes[Y].BS.Height() >= 1
+	ctx.ClassIf(ycommitted, "y-committed-in-round1")
+	if err := noiseAt(3); err != nil {
+		return err
+	}
+	net.Fire(X)
+	net.Fire(Z) // precommit-wait -> round 2
+	// ---- round 2: a different block is offered to X and Z, W supports it
+	rsZ := net.Nodes[Z].CS.GetRoundState()
+	if rsZ.Height == 1 && net.Nodes[X].CS.GetRoundState().Height == 1 {
+		if p2 == W || p2 == Y {
+			pm, parts, _, err := net.ByzProposal(W, Z, rsZ.Round, -1, []types.Tx{types.Tx(fmt.Sprintf("d=%d", c.Txs))})
+			if err == nil && p2 == W {
+				net.SendTo(W, pm, []int{X, Z})
+				for _, bp := range parts {
+					net.SendTo(W, bp, []int{X, Z})
+				}
+			}
+		}
+		xz := only(X, Z)
+		net.FlushKinds(1, xz, xz, 400)
+		var bidD types.BlockID
+		if rz := net.Nodes[Z].CS.GetRoundState(); rz.ProposalBlock != nil && rz.ProposalBlockParts != nil {
+			bidD = types.BlockID{Hash: rz.ProposalBlock.Hash(), PartsHeader: rz.ProposalBlockParts.Header()}
+		}
+		if len(bidD.Hash) > 0 && string(bidD.Hash) != string(bidB.Hash) {
+			ctx.Class("different-block-offered-in-round2")
+			ctx.NTIf(ycommitted && lockedXY)
+			r2 := net.Nodes[Z].CS.GetRoundState().Round
+			net.SendTo(W, net.ByzVote(W, 1, r2, types.PrevoteType, bidD), []int{X, Z})
+			net.FlushKinds(2, xz, xz, 400)
+			if err := check("r2-prevotes"); err != nil {
+				return err
+			}
+			net.SendTo(W, net.ByzVote(W, 1, r2, types.PrecommitType, bidD), []int{X, Z})
+			net.FlushKinds(4, xz, xz, 400)
+			if err := check("r2-precommits"); err != nil {
+				return err
+			}
+		}
+	}
+	if err := c31Apply(ctx, net, byz, c.Tail, &equiv); err != nil {
+		return err
+	}
+	from := net.Heights()
+	ok, iters := net.SyncSuffix(from, 1, 160)
+	if err := net.CheckSafety(); err != nil {
+		return fmt.Errorf("in the synchronous suffix: %v", err)
+	}
+	if !ok && c31AbandonedCommit(net, from) && ctx.Known("commit-abandoned-by-round-skip") {
+		ok = true
+	}
+	if !ok {
+		return fmt.Errorf("no progress in the synchronous suffix (%d iterations): before %v after %v", iters, from, net.Heights())
+	}
+	return nil
+}
+
+func TestC31_Relock(t *testing.T) {
+	vk.Run(t, vk.Spec[c31Relock]{
+		ID: "C31", Name: "TestC31_Relock",
+		Rule: "rapid: second directed template over 4 equal validators, one byzantine (drawn among the admissible ones): X and Y lock B in round 0 with no commit; B is re-proposed in round 1, X times out of propose before the proposal arrives, prevotes from its lock, sees the polka and precommits through the relock path; Y commits B with the byzantine precommit; X and the never-locked Z move to round 2 where a different block is offered with byzantine support; drawn noise actions between the steps and a random tail; safety after every step, then the synchronous suffix; non-trivial = Y committed in round 1 while X and Y had been locked, and a different block was offered in round 2",
+		Draw: func(rt *rapid.T) c31Relock {
+			c := c31Relock{WChoice: rapid.IntRange(0, 3).Draw(rt, "w"), Txs: rapid.IntRange(0, 9).Draw(rt, "txs")}
+			nn := rapid.IntRange(0, 2).Draw(rt, "nnoise")
+			for i := 0; i < nn; i++ {
+				c.Noise = append(c.Noise, c31Action{K: rapid.SampledFrom(c31Kinds).Draw(rt, "k"), A: rapid.IntRange(0, 1<<12).Draw(rt, "a"), B: rapid.IntRange(0, 1<<12).Draw(rt, "b"), C: rapid.IntRange(0, 1<<12).Draw(rt, "c")})
+				c.Where = append(c.Where, rapid.IntRange(1, 3).Draw(rt, "where"))
+			}
+			nt := rapid.IntRange(0, 20).Draw(rt, "ntail")
+			for i := 0; i < nt; i++ {
+				c.Tail = append(c.Tail, c31Action{K: rapid.SampledFrom(c31Kinds).Draw(rt, "k"), A: rapid.IntRange(0, 1<<12).Draw(rt, "a"), B: rapid.IntRange(0, 1<<12).Draw(rt, "b"), C: rapid.IntRange(0, 1<<12).Draw(rt, "c")})
+			}
+			return c
+		},
+		Exec: c31RelockExec,
+	})
+}
